@@ -70,6 +70,7 @@ type Ev struct {
 	NewTEID uint32    `json:"new_teid,omitempty"`
 	IDLast  bool      `json:"id_last,omitempty"` // updfar: FAR ID IE after the Apply Action IE
 	QERs    []uint32  `json:"qers,omitempty"`    // mkpdr
+	Late    bool      `json:"late,omitempty"`    // burst: notifications that were on their way when the PDR was removed (the kernel had handed the packets up before): they belong to no PDR the session has
 	Whole   bool      `json:"whole,omitempty"`   // burst: written in one go (the listener runs ahead of the idle loop and the report queue fills) instead of chunks of 100
 	Spec    *SessSpec `json:"spec,omitempty"`
 }
@@ -112,6 +113,8 @@ type msess struct {
 type stats struct {
 	overflowThenRelease, releaseAfterReuse, twoForw bool
 	recreated                                       bool
+	late                                            bool // notifications delivered after the removal of their PDR
+	lateSeid0                                       bool // a notification answered with SEID 0 after its session had ended
 	released, notified                              int
 }
 
@@ -126,6 +129,11 @@ func run(c Case) (v *vcore.Violation, stt stats) {
 	if err != nil {
 		panic("infrastructure: " + err.Error())
 	}
+	type keptSRR struct {
+		srr stack.SRR
+		of  *msess
+	}
+	var kept []keptSRR // downlink data notifications the SMFs have not answered
 	var gnbs []*stack.Sock
 	for g := 0; g < 3; g++ {
 		s, err := stack.NewSock(f.S.Net.IP(10+g), 2152)
@@ -290,10 +298,19 @@ func run(c Case) (v *vcore.Violation, stt stats) {
 			if m != nil {
 				// the kernel only hands packets up for a PDR whose FAR buffers
 				p := m.pdrs[ev.PDR]
-				if p == nil || p.removed || m.fars[p.far] == nil || m.fars[p.far].action&BUFF == 0 {
+				if ev.Late {
+					// handed up while the PDR was there, delivered after its removal: nothing the session has can ever release them
+					if p == nil || !p.removed {
+						continue
+					}
+					stt.late = true
+				} else if p == nil || p.removed || m.fars[p.far] == nil || m.fars[p.far].action&BUFF == 0 {
 					continue
 				}
+			} else if ev.Late {
+				continue
 			}
+			late := ev.Late && m != nil
 			action := uint16(BUFF)
 			if ev.NOCP {
 				action |= NOCP
@@ -311,7 +328,7 @@ func run(c Case) (v *vcore.Violation, stt stats) {
 						panic("infrastructure: " + err.Error())
 					}
 					stt.notified++
-					if m != nil {
+					if m != nil && !late {
 						if K < 0 || len(m.q[ev.PDR]) < K {
 							m.q[ev.PDR] = append(m.q[ev.PDR], pl)
 						} else {
@@ -345,6 +362,9 @@ func run(c Case) (v *vcore.Violation, stt stats) {
 			// DLDR requests
 			got := 0
 			for _, s := range o.SRRs {
+				if m != nil {
+					kept = append(kept, keptSRR{srr: s, of: m})
+				}
 				if m == nil {
 					return vcore.Violatef("dldr-for-dead-session", "%s: a Session Report Request was sent for SEID %#x which is not a live session", what, seid), stt
 				}
@@ -371,8 +391,8 @@ func run(c Case) (v *vcore.Violation, stt stats) {
 			for s := range r.Pending {
 				r.Pending[s] = nil
 			}
-			// queue content
-			if m != nil {
+			// queue content (what the server does with packets of a PDR it no longer has shows when that id is used again)
+			if m != nil && !late {
 				snap := f.S.Srv.VerifSnapshot()
 				held := snap.Sess[m.up].Queues[ev.PDR]
 				model := m.q[ev.PDR]
@@ -614,6 +634,32 @@ func run(c Case) (v *vcore.Violation, stt stats) {
 			if g := drainGNBs(); len(g) > 0 {
 				return vcore.Violatef("unexpected-emission", "%s: packets emitted on re-association", what), stt
 			}
+		case "rsp0":
+			// the SMF answers the oldest downlink data notification it has not answered yet with SEID 0 ("I do not know this
+			// session"): the UPF lets go of the session the notification was for, if it is still there - and of nothing else,
+			// whoever holds that session's SEID by now
+			if len(kept) == 0 {
+				continue
+			}
+			k := kept[0]
+			kept = kept[1:]
+			rsp := message.NewSessionReportResponse(0, 0, 0, k.srr.Seq, 0, ie.NewCause(ie.CauseSessionContextNotFound))
+			o := r.SendRaw(k.srr.Sock, stack.Marshal(rsp))
+			if x := dead(o, what); x != nil {
+				return x, stt
+			}
+			if k.of.alive {
+				k.of.alive = false
+				k.of.q = map[uint16][]string{}
+			} else {
+				stt.lateSeid0 = true
+			}
+			if g := drainGNBs(); len(g) > 0 {
+				return vcore.Violatef("unexpected-emission", "%s: packets emitted on a SEID-0 answer", what), stt
+			}
+			if x := queuesMatch(what); x != nil {
+				return x, stt
+			}
 		case "del":
 			if ev.Sess >= len(ms) || !ms[ev.Sess].alive {
 				continue
@@ -675,7 +721,7 @@ func gen(t *rapid.T) Case {
 		c.Sess = append(c.Sess, genSess(t, uint64(0x60+i)))
 	}
 	// scripted cores make the interesting shapes frequent; free-form events follow
-	scen := rapid.SampledFrom([]string{"free", "free", "overflow", "twoforw", "reuse", "reassocreuse", "recreate", "dropshared"}).Draw(t, "scenario")
+	scen := rapid.SampledFrom([]string{"free", "free", "overflow", "twoforw", "reuse", "reuseorphan", "lateseid0", "reassocreuse", "recreate", "recreatelate", "dropshared"}).Draw(t, "scenario")
 	if scen != "free" {
 		c.Sess[0].FARs[0].Action = rapid.SampledFrom([]uint16{BUFF, BUFF | NOCP}).Draw(t, "a0")
 		c.Sess[0].PDRs[0].FAR = 1
@@ -714,6 +760,28 @@ func gen(t *rapid.T) Case {
 		c.Evs = append(c.Evs, small(), Ev{Kind: "rmpdr", Sess: 0, PDR: 1}, Ev{Kind: "mkpdr", Sess: 0, PDR: 1, FAR: 1}, small(), forw)
 	case "twoforw":
 		c.Evs = append(c.Evs, small(), forw, Ev{Kind: "updfar", Sess: 0, FAR: 1, Action: BUFF}, small(), forw)
+	case "reuseorphan":
+		// notifications for PDR 1 arrive after PDR 1 has been removed (they were on their way); the session ends, the SEID is
+		// issued again, the new session has a PDR 1 of its own - only its own packets may come out
+		sp := genSess(t, 0x7d)
+		sp.FARs[0].Action = BUFF
+		sp.PDRs[0].FAR = 1
+		lateN := rapid.IntRange(1, 9).Draw(t, "late_n")
+		c.Evs = append(c.Evs, small(), Ev{Kind: "rmpdr", Sess: 0, PDR: 1}, Ev{Kind: "burst", Sess: 0, Target: "live", PDR: 1, N: lateN, Late: true}, Ev{Kind: "del", Sess: 0}, Ev{Kind: "est", Spec: &sp},
+			Ev{Kind: "burst", Sess: ns, Target: "live", PDR: 1, N: 2}, Ev{Kind: "updfar", Sess: ns, FAR: 1, Action: FORW})
+	case "recreatelate":
+		// as "recreate", with notifications for the removed PDR arriving between its removal and the creation of the new one
+		c.Evs = append(c.Evs, small(), Ev{Kind: "rmpdr", Sess: 0, PDR: 1}, Ev{Kind: "burst", Sess: 0, Target: "live", PDR: 1, N: rapid.IntRange(1, 9).Draw(t, "late_n"), Late: true},
+			Ev{Kind: "mkpdr", Sess: 0, PDR: 1, FAR: 1}, small(), forw)
+	case "lateseid0":
+		// a notification of session A is still unanswered when A is deleted; the same SMF gets A's SEID back for a new session,
+		// which buffers; then the old notification is answered with SEID 0: the new session and its packets stay
+		sp := genSess(t, 0x7c)
+		sp.Node = c.Sess[0].Node
+		sp.FARs[0].Action = BUFF
+		sp.PDRs[0].FAR = 1
+		c.Evs = append(c.Evs, Ev{Kind: "burst", Sess: 0, Target: "live", PDR: 1, N: 1, NOCP: true}, Ev{Kind: "del", Sess: 0}, Ev{Kind: "est", Spec: &sp},
+			Ev{Kind: "burst", Sess: ns, Target: "live", PDR: 1, N: 3}, Ev{Kind: "rsp0"}, Ev{Kind: "updfar", Sess: ns, FAR: 1, Action: FORW})
 	case "reuse":
 		sp := genSess(t, 0x7f)
 		sp.FARs[0].Action = BUFF
@@ -722,11 +790,11 @@ func gen(t *rapid.T) Case {
 	}
 	n := rapid.IntRange(2, 14).Draw(t, "nev")
 	nsess := ns
-	if scen == "reuse" || scen == "reassocreuse" {
+	if scen == "reuse" || scen == "reassocreuse" || scen == "reuseorphan" || scen == "lateseid0" {
 		nsess++
 	}
 	for i := 0; i < n; i++ {
-		k := rapid.SampledFrom([]string{"burst", "burst", "burst", "burst", "updfar", "updfar", "updfar", "updfar", "rmpdr", "mkpdr", "del", "reassoc", "est", "est"}).Draw(t, "kind")
+		k := rapid.SampledFrom([]string{"burst", "burst", "burst", "burst", "updfar", "updfar", "updfar", "updfar", "rmpdr", "mkpdr", "del", "reassoc", "est", "est", "rsp0"}).Draw(t, "kind")
 		ev := Ev{Kind: k, Sess: rapid.IntRange(0, nsess-1).Draw(t, "sess")}
 		switch k {
 		case "burst":
@@ -738,6 +806,9 @@ func gen(t *rapid.T) Case {
 				ev.NOCP = rapid.IntRange(0, 3).Draw(t, "keepnocp") == 0
 			}
 			ev.Whole = ev.N > 100 && rapid.Bool().Draw(t, "whole")
+			if ev.N <= 12 && rapid.IntRange(0, 5).Draw(t, "late") == 0 {
+				ev.Late, ev.NOCP = true, false
+			}
 		case "updfar":
 			ev.FAR = uint32(rapid.IntRange(1, 2).Draw(t, "far"))
 			ev.Action = rapid.SampledFrom([]uint16{FORW, FORW, FORW, DROP, BUFF, BUFF | NOCP}).Draw(t, "action")
@@ -796,6 +867,12 @@ func account(c Case, s stats) {
 	}
 	if s.twoForw {
 		vcore.E.Class("two_forw_transitions")
+	}
+	if s.lateSeid0 {
+		vcore.E.Class("seid0_answer_for_a_notification_of_an_ended_session")
+	}
+	if s.late {
+		vcore.E.Class("notifications_delivered_after_the_removal_of_their_pdr")
 	}
 	if s.overflowThenRelease || s.releaseAfterReuse || s.twoForw {
 		vcore.E.NonTrivial(vcore.JSON(c))
